@@ -1102,3 +1102,176 @@ pub fn run_typed(rep: &mut mc::Report) -> (u64, Vec<Value>) {
     }
     (n, samples)
 }
+
+// ------------------------------------------------------------------------------------ transaction ids
+
+/// Calls, subscriptions and unsubscribes of one client in sequence: a subscription stays open across
+/// later calls, so every later call has to get an id of its own - each call resolves with its own
+/// answer and each subscription receives exactly the changes of its key.
+#[derive(Clone, Debug)]
+pub enum IStep {
+    Sub(&'static str),
+    UnsubOldest,
+    Get(&'static str),
+    Set(&'static str),
+    Lock(&'static str),
+}
+
+pub struct IdScenario {
+    pub steps: Vec<IStep>,
+}
+
+async fn finish<T: Send + 'static>(fut: impl std::future::Future<Output = T> + Send + 'static) -> Option<T> {
+    let slot: Arc<Mutex<Option<T>>> = Arc::new(Mutex::new(None));
+    let s2 = slot.clone();
+    tokio::spawn(async move {
+        let r = fut.await;
+        *s2.lock().expect("lock") = Some(r);
+    });
+    spin_until(|| slot.lock().expect("lock").is_some(), 4000).await;
+    let r = slot.lock().expect("lock").take();
+    r
+}
+
+impl Scenario for IdScenario {
+    fn num_ops(&self) -> usize {
+        self.steps.len()
+    }
+    fn op_json(&self, op: u16) -> Value {
+        json!(format!("{:?}", self.steps[op as usize]))
+    }
+    fn run(&self, history: &[u16]) -> Option<StepOut> {
+        let rt = new_runtime();
+        let out = rt.block_on(async {
+            let rig = match Rig::new().await {
+                Ok(r) => r,
+                Err(e) => panic!("{e}"),
+            };
+            rig.gate.permits.add_permits(100_000);
+            let mut values: BTreeMap<String, i64> = BTreeMap::new();
+            let mut counter = 0i64;
+            // (tid, key, received, expected, live)
+            struct Sub {
+                tid: u64,
+                key: String,
+                got: Arc<Mutex<Vec<Option<Value>>>>,
+                want: Vec<Option<Value>>,
+                live: bool,
+            }
+            let mut subs: Vec<Sub> = vec![];
+            let mut locked: std::collections::BTreeSet<String> = Default::default();
+            let mut violation: Option<String> = None;
+            let mut class = String::new();
+            for (i, o) in history.iter().enumerate() {
+                let last = i + 1 == history.len();
+                let c = rig.client.clone();
+                match &self.steps[*o as usize] {
+                    IStep::Sub(k) => {
+                        let key = k.to_string();
+                        let r = finish(async move { c.subscribe_generic(key, false, false).await.map_err(|e| e.to_string()) }).await;
+                        match r {
+                            Some(Ok((mut rx, tid))) => {
+                                let got: Arc<Mutex<Vec<Option<Value>>>> = Arc::new(Mutex::new(vec![]));
+                                let g2 = got.clone();
+                                tokio::spawn(async move {
+                                    while let Some(v) = rx.recv().await {
+                                        g2.lock().expect("lock").push(v);
+                                    }
+                                });
+                                let mut want = vec![];
+                                if let Some(v) = values.get(*k) {
+                                    want.push(Some(json!(v)));
+                                }
+                                subs.push(Sub { tid, key: k.to_string(), got, want, live: true });
+                                class = "sub".into();
+                            }
+                            other => violation = Some(format!("subscribe({k}) did not succeed: {:?}", other.map(|r| r.map(|x| x.1)))),
+                        }
+                    }
+                    IStep::UnsubOldest => {
+                        let Some(s) = subs.iter_mut().find(|s| s.live) else {
+                            rig.shutdown().await;
+                            if last {
+                                return None;
+                            }
+                            panic!("MACHINERY: nothing to unsubscribe in prefix");
+                        };
+                        s.live = false;
+                        let tid = s.tid;
+                        match finish(async move { c.unsubscribe(tid).await.map_err(|e| e.to_string()) }).await {
+                            Some(Ok(())) => class = "unsub".into(),
+                            other => violation = Some(format!("unsubscribe({tid}) did not succeed: {other:?}")),
+                        }
+                    }
+                    IStep::Get(k) => {
+                        let key = k.to_string();
+                        let r = finish(async move { c.get::<i64>(key).await.map_err(|e| e.to_string()) }).await;
+                        let want = values.get(*k).copied();
+                        match r {
+                            Some(Ok(v)) if v == want => class = "get".into(),
+                            other => violation = Some(format!("get({k}) resolved with {other:?}, the server holds {want:?}")),
+                        }
+                    }
+                    IStep::Set(k) => {
+                        counter += 1;
+                        let (key, v) = (k.to_string(), counter);
+                        match finish(async move { c.set(key, v).await.map_err(|e| e.to_string()) }).await {
+                            Some(Ok(())) => {
+                                values.insert(k.to_string(), counter);
+                                for s in subs.iter_mut().filter(|s| s.live && s.key == *k) {
+                                    s.want.push(Some(json!(counter)));
+                                }
+                                class = "set".into();
+                            }
+                            other => violation = Some(format!("set({k}) did not succeed: {other:?}")),
+                        }
+                    }
+                    IStep::Lock(k) => {
+                        let key = k.to_string();
+                        let r = finish(async move { c.lock(key).await.map_err(|e| e.to_string()) }).await;
+                        let fresh = locked.insert(k.to_string());
+                        match r {
+                            Some(Ok(())) => class = "lock".into(),
+                            // (locking a key one holds already is fine as well)
+                            other if !fresh => class = format!("lock-again:{}", other.is_some()),
+                            other => violation = Some(format!("lock({k}) did not succeed: {other:?}")),
+                        }
+                    }
+                }
+                spin(60).await;
+                if violation.is_none() {
+                    for s in &subs {
+                        let got = s.got.lock().expect("lock").clone();
+                        if got != s.want {
+                            violation = Some(format!(
+                                "subscription {} on {:?} received {got:?}, the changes of its key were {:?} (after step {:?})",
+                                s.tid, s.key, s.want, self.steps[*o as usize]
+                            ));
+                        }
+                    }
+                }
+                if violation.is_some() {
+                    if !last {
+                        panic!("MACHINERY: prefix violated on replay: {violation:?}");
+                    }
+                    break;
+                }
+            }
+            rig.shutdown().await;
+            Some(StepOut {
+                fingerprint: hash_str(&format!("{history:?}")),
+                verdict: match violation {
+                    Some(v) => Verdict::Violation(v),
+                    None => Verdict::Ok,
+                },
+                class,
+            })
+        });
+        drop(rt);
+        out
+    }
+}
+
+pub fn id_scenario() -> IdScenario {
+    IdScenario { steps: vec![IStep::Sub("x"), IStep::Sub("y"), IStep::UnsubOldest, IStep::Get("y"), IStep::Set("x"), IStep::Set("y"), IStep::Lock("l")] }
+}
